@@ -12,7 +12,7 @@ import numpy as np
 from vlib import sym as S
 from vlib import symgrid as SG
 from vlib import pipeline as PL
-from vlib.framework import proved, violated, undecided
+from vlib.framework import proved, violated, undecided, held
 from specs import galerkin as GS
 from specs import kernels as KS
 
@@ -112,9 +112,114 @@ def run_potential(mesh, space_spec, kernel_key="laplace_single_layer", kernel="s
     return out, exp, space
 
 
+COEFFICIENT_PATTERNS = ("dense", "unit-first", "unit-last", "half-zero", "zero")
+
+
+def replay_potential_instance(mesh, space_spec, kernel_key, domain_indices=None, par_case=None):
+    """Native instance of the potential contract: the real PotentialAssembler with the real kernel on the real (float) grid, a generic 2-point rule, generic
+    evaluation points and coefficient vectors that are dense, unit vectors, half zero and zero (data-dependent shortcuts in the code only show up for such vectors,
+    and make symbolic execution branch on the data), against the closed-form spec evaluated at the same numbers."""
+    import bempp_cl.api as api
+    from bempp_cl.api.operators import OperatorDescriptor
+    from bempp_cl.api.assembly.assembler import PotentialAssembler
+    from bempp_cl.api.integration import triangle_gauss
+    from vlib import kernelrun as KR
+
+    di = np.array(domain_indices, dtype="uint32") if domain_indices is not None else None
+    space_spec = tuple(space_spec)
+    # spec, symbolically (independent of the coefficient values), on its own grid object
+    S.reset()
+    v, e = PL._mesh(mesh)
+    sgrid = SG.make_grid(v, e, di)
+    sspace = PL.make_space(sgrid, space_spec)
+    g = SG.attach_symbolic(sgrid, "v")
+    geo = GS.Geometry(g._vertices, sgrid.elements)
+    pts_s, wts_s, points_s = S.symarray("q", (2, 2)), S.symarray("qw", (2,), positive=True), S.symarray("p", (3, 2))
+    n = sspace.global_dof_count
+    x_s = S.symarray("x", (n,))
+    par_s = [c for c in KR.param_cases(kernel_key) if c[0] == par_case][0][1] if par_case is not None else []
+    exp = spec_potential(geo, sspace, lambda p_, y, nx, ny, par: KS.SPEC[kernel_key](p_, y, nx, ny, par), par_s, (pts_s, wts_s), points_s, x_s)
+    SG.detach(sgrid)
+    # numbers
+    rng = np.random.RandomState(5)
+    pts, wts = rng.uniform(0.1, 0.4, size=(2, 2)), rng.uniform(0.2, 0.6, size=2)
+    points = np.array([[2.3, -0.4], [0.6, 2.9], [1.1, 0.7]])
+    env = SG.vertex_env(sgrid, "v")
+    for i in range(2):
+        env["qw_%d" % i] = float(wts[i])
+        for j in range(2):
+            env["q_%d_%d" % (i, j)] = float(pts[i, j])
+    for i in range(3):
+        for j in range(2):
+            env["p_%d_%d" % (i, j)] = float(points[i, j])
+    pvals = {"kr": 1.1, "ki": 0.4, "w": 0.9}
+    par_num = []
+    for t in par_s:
+        names = S.variables_of(S.Sym._coerce(t)) if not isinstance(t, (int, float)) else []
+        for nm in names:
+            env[nm] = pvals.get(nm, 0.7)
+        par_num.append(float(complex(S.evaluate(S.Sym._coerce(t), env)).real) if not isinstance(t, (int, float)) else float(t))
+    # real run
+    grid = SG.make_grid(v, e, di)
+    space = PL.make_space(grid, space_spec)
+    desc = OperatorDescriptor("stub", par_num, kernel_key, "default_scalar", "double", bool(par_num and len(par_num) == 2), None, 1)
+    saved = triangle_gauss.rule
+    failing, worst = [], 0.0
+    try:
+        triangle_gauss.rule = lambda order: (pts, wts)
+        pa = PotentialAssembler(space, points, desc, "numba", "dense", api.GLOBAL_PARAMETERS)
+        for pat in COEFFICIENT_PATTERNS:
+            x = rng.randn(n)
+            if pat == "unit-first":
+                x = np.zeros(n)
+                x[0] = 1.0
+            elif pat == "unit-last":
+                x = np.zeros(n)
+                x[-1] = 1.0
+            elif pat == "half-zero":
+                x[: n // 2] = 0.0
+            elif pat == "zero":
+                x = np.zeros(n)
+            got = np.asarray(pa.evaluate(x))
+            for k in range(n):
+                env["x_%d" % k] = float(x[k])
+            want = np.array([[complex(S.evaluate(S.Sym._coerce(exp[d, i]), env)) for i in range(exp.shape[1])] for d in range(exp.shape[0])])
+            scale = max(1e-300, np.abs(want).max(), 1e-3)
+            err = float(np.abs(got - want).max() / scale) if got.shape == want.shape else float("inf")
+            worst = max(worst, err)
+            if not err < 1e-10:
+                failing.append("%s coefficients: relative deviation %.2e" % (pat, err))
+    finally:
+        triangle_gauss.rule = saved
+    return {"violates": bool(failing), "failing": failing, "worst": worst}
+
+
+def ob_potential_patterns(mesh, space_spec, kernel_key, domain_indices=None, par_case=None):
+    """bounded: see replay_potential_instance"""
+    r = replay_potential_instance(mesh, space_spec, kernel_key, domain_indices, par_case)
+    if r["violates"]:
+        return violated("potential %s of a %s%d density on %s differs from the closed-form kernel sum for special coefficient vectors: %s" % (kernel_key, space_spec[0], space_spec[1], mesh, r["failing"]),
+                        witness={"failing": r["failing"]}, signature="potential-patterns/%s/%s%d" % (kernel_key, space_spec[0], space_spec[1]),
+                        replay={"callable": "vlib.potential:replay_potential_instance", "confirmed": True, "result": r,
+                                "kwargs": {"mesh": mesh, "space_spec": list(space_spec), "kernel_key": kernel_key, "domain_indices": domain_indices, "par_case": par_case}})
+    return held("%d coefficient patterns, worst %.1e" % (len(COEFFICIENT_PATTERNS), r["worst"]))
+
+
 def ob_potential(mesh, space_spec, kernel_key="laplace_single_layer", kernel="stub", domain_indices=None, par_case=None):
     di = np.array(domain_indices, dtype="uint32") if domain_indices is not None else None
-    out, exp, space = run_potential(mesh, space_spec, kernel_key, kernel, 2, di, par_case)
+    try:
+        out, exp, space = run_potential(mesh, space_spec, kernel_key, kernel, 2, di, par_case)
+    except S.Undecided as ex:
+        # the real code branches on the DATA (coefficients / points): not executable on symbols; decided natively on special coefficient vectors if that fails
+        if kernel != "real":
+            raise
+        r = replay_potential_instance(mesh, tuple(space_spec), kernel_key, domain_indices, par_case)
+        if r["violates"]:
+            return violated("potential %s: symbolic execution not possible (%s) and the native instance of the contract fails: %s" % (kernel_key, str(ex)[:100], r["failing"]),
+                            witness={"failing": r["failing"]}, signature="potential/%s/native" % kernel_key,
+                            replay={"callable": "vlib.potential:replay_potential_instance", "confirmed": True, "result": r,
+                                    "kwargs": {"mesh": mesh, "space_spec": list(space_spec), "kernel_key": kernel_key, "domain_indices": domain_indices, "par_case": par_case}})
+        raise
     out = np.asarray(out)
     if out.shape != exp.shape:
         return violated("potential result has shape %s, expected %s" % (out.shape, exp.shape), signature="potential/%s" % mesh)
